@@ -18,13 +18,16 @@ import traceback
 
 sys.path.insert(0, os.path.dirname(os.path.abspath(__file__)))
 import t2lib as T  # noqa: E402
+import aud_matrix  # noqa: E402
+import aud_udp  # noqa: E402
+import aud_listeners  # noqa: E402
 
 WORKERS = 8
 DEADLINE = T.DEFAULT_DEADLINE
 
 
 def wanted(name, only):
-    return (not only) or (only in name)
+    return T.wanted(name, only)
 
 
 def tails(dep, n=500):
@@ -167,6 +170,11 @@ def suite_matrix(tier, seed, only):
                     n = "matrix/%s/%s/%s" % (cname, k, sn)
                     if wanted(n, only):
                         jobs.append(lambda spec=spec, cname=cname, k=k, sn=sn, n=n: matrix_job_single(spec, cname, k, sn, n, seed))
+    # dimension audit: traffic shapes, sizes, simultaneous bulk, pauses, concurrency, several users / client processes
+    def mixed_script(label):
+        sc = matrix_scripts("quick", seed, label)[0]
+        return sc[1], sc[4]
+    jobs.extend(aud_matrix.jobs(matrix_combos(), tier, seed, only, DEADLINE, mixed_script))
     rng.shuffle(jobs)  # spread slow (failing) combinations over the pool
     return T.run_parallel(jobs, WORKERS, on_done=T.report_line)
 
@@ -285,13 +293,17 @@ def suite_udp(tier, seed, only):
     rng = random.Random(seed)
     for (p, c, t, users) in udp_combos():
         cname = "udp/%s/%s/%s" % (p, c or "-", ("native-udp" if p == "shadowsocks" else t) + ("+users" if users else ""))
-        sizes = [0, 1, 100, 1400] + ([2000, 8000, 60000] if tier == "thorough" else [])
-        names = ["%s/size=%d" % (cname, s) for s in sizes] + [cname + "/isolation"]
-        if not any(wanted(n, only) for n in names):
-            continue
+        sizes = [0, 1, 100, 1400] + ([2000, 8000, 60000] if tier == "thorough" else [8000, 60000])
+        names = ["%s/size=%d" % (cname, s) for s in sizes] + [cname + "/isolation"] + ([cname + "/wire-uniqueness"] if p == "shadowsocks" else [])
         sub = rng.randrange(1 << 30)
-        jobs.append(lambda p=p, c=c, t=t, users=users, cname=cname, sub=sub: udp_job(p, c, t, users, cname, tier, seed, sub))
-    return [r for r in T.run_parallel(jobs, WORKERS, on_done=lambda r: wanted(r["scenario"], only) and T.report_line(r))
+        if any(wanted(n, only) for n in names):
+            jobs.append(lambda p=p, c=c, t=t, users=users, cname=cname, sub=sub: udp_job(p, c, t, users, cname, tier, seed, sub))
+        # dimension audit: sizes at the limit of the path, more applications than the binding table holds, bursts, several and late
+        # replies, third parties, IPv6 and unresolvable targets, two client processes, a disturbing hop
+        if any(wanted(n, only) for n in aud_udp.names_for(cname, p == "shadowsocks", tier)):
+            jobs.append(lambda p=p, c=c, t=t, users=users, cname=cname: aud_udp.aud_job(p, c, t, users, cname, tier, seed, DEADLINE, only))
+    # the audit jobs spend most of their time waiting (late answers, datagrams that must NOT arrive): twice the workers
+    return [r for r in T.run_parallel(jobs, WORKERS * 2, on_done=lambda r: wanted(r["scenario"], only) and T.report_line(r))
             if wanted(r["scenario"], only)]
 
 
@@ -303,7 +315,7 @@ def udp_job(p, c, t, users, cname, tier, seed, sub):
     if users:
         spec["users"] = users
     small = [0, 1, 100, 1400]
-    big = [2000, 8000, 60000] if tier == "thorough" else []
+    big = [2000, 8000, 60000] if tier == "thorough" else [8000, 60000]   # datagrams above one MTU are part of the quick tier as well
     napps, ntargets = 3, rng.choice([2, 3])
     names = ["%s/size=%d" % (cname, s) for s in small + big] + [cname + "/isolation"]
     # native Shadowsocks datagrams travel through a recording UDP hop, so that the wire itself can be looked at
@@ -521,13 +533,32 @@ def bad_config_cases(seed):
     cases.append(("key-32-bytes-for-aes-128/both", ss, {"server": {"password": k32}, "client_server": {"password": k32}}, ["server", "client"]))
     cases.append(("malformed-base64-key/both", ss, {"server": {"password": "!!!not*base64!!!"}, "client_server": {"password": "!!!not*base64!!!"}},
                   ["server", "client"]))
+    # ---- dimension audit: inconsistent values
+    cases.append(("client-index-out-of-range/client", ss, {"client": {"index": 5}}, ["client"]))
+    vm = {"protocol": "vmess", "cipher": "aes-128-gcm", "transport": "tcp", "client_mode": "tcp", "seed": seed}
+    cases.append(("vmess-user-password-not-a-uuid/server", vm, {"server": {"user": [{"name": "u1", "password": "this-is-not-a-uuid"}]}}, ["server"]))
+    cases.append(("vmess-password-not-a-uuid/client", vm, {"client_server": {"password": "this-is-not-a-uuid"}}, ["client"]))
+    cases.append(("vmess-cipher-vmess-does-not-offer/client", vm, {"client_server": {"cipher": "aes-256-gcm"}}, ["client"]))
+    cases.append(("server-mode-quic-without-quic-section/server", ss, {"server": {"mode": "quic"}}, ["server"]))
+    cases.append(("server-mode-tcp_and_quic-without-quic-section/server", ss, {"server": {"mode": "tcp_and_quic"}}, ["server"]))
+    cases.append(("server-only-mode-quic/client", ss, {"client": {"mode": "quic"}}, ["client"]))
+    cases.append(("server-only-mode-tcp_and_quic/client", ss, {"client": {"mode": "tcp_and_quic"}}, ["client"]))
+    ssu = dict(ss256, users=["u1", "u2"])
+    cases.append(("user-key-16-bytes-for-aes-256/server", ssu, {"server": {"user": [{"name": "u1", "password": k16}, {"name": "u2", "password": k32}]}}, ["server"]))
+    cases.append(("empty-key/server", ss, {"server": {"password": ""}}, ["server"]))
     return cases
 
 
+# cases whose present behaviour is a reported, still open defect of /repo (t2lib.OPEN_DEFECTS)
+BAD_CONFIG_DEFECT = {"client-index-out-of-range/client": "F-aud-5", "vmess-user-password-not-a-uuid/server": "F-aud-6",
+                     "vmess-password-not-a-uuid/client": "F-aud-7"}
+
+
 def error_logged(text):
-    """An ERROR-level log line, a panic, or main() returning Err ('Error: ...' on stderr)."""
+    """An ERROR-level log line or main() returning Err ('Error: ...' on stderr).  A panic is NOT a clean refusal (C16: "stop
+    startup with an error rather than a panic")."""
     for line in text.splitlines():
-        if " ERROR " in line or line.startswith("Error:") or "panicked at" in line:
+        if " ERROR " in line or line.startswith("Error:"):
             return True
     return False
 
@@ -549,16 +580,23 @@ def listeners_bad_config(case, base, extra, sides, seed):
                                   "dialled": probe.get("dialled"), "errors": probe.get("errors")}
         observed.update(process_state(dep))
         observed["log_tail"] = {w: logs[w][-500:] for w in sides}
+        tag = BAD_CONFIG_DEFECT.get(case)
+
+        def problem(text):
+            problems.append((tag, text) if tag else text)
         for w in sides:
             rejected = codes[w] is not None or observed["error_logged"][w]
-            if not rejected:
-                problems.append("%s accepted the bad value silently (still running, no error logged)" % w)
+            if observed["panicked"][w]:
+                problem("%s PANICS on the bad value instead of stopping with an error" % w)
+            elif not rejected:
+                problem("%s accepted the bad value silently (still running, no error logged)" % w)
             li = observed["listening"][w]
             if codes[w] is None and (li["tcp"] or li["udp"]):
-                problems.append("%s keeps listening (%s) with the bad value" % (w, li))
+                problem("%s keeps listening (%s) with the bad value" % (w, li))
         if probe["relayed"]:
-            problems.append("a flow is relayed end to end although the configuration is invalid")
-    return T.result(name, spec, {"bad_side": sides, "process": "exits or logs an error", "listens": False, "relays": False},
+            problem("a flow is relayed end to end although the configuration is invalid")
+        problems = T.settle(problems, observed)
+    return T.result(name, spec, {"bad_side": sides, "process": "exits or logs an error (a panic is not an error message)", "listens": False, "relays": False},
                     observed, not problems, "; ".join(problems))
 
 
@@ -598,6 +636,7 @@ def suite_listeners(tier, seed, only):
     for (case, base, extra, sides) in bad_config_cases(seed):
         add("listeners/bad-config/%s" % case, lambda case=case, base=base, extra=extra, sides=sides: listeners_bad_config(case, base, extra, sides, seed))
     add("listeners/legacy-cipher-ordinary-password/udp-relay", lambda: listeners_legacy_udp(seed))
+    jobs.extend(aud_listeners.jobs(seed, only))      # dimension audit
     return T.run_parallel(jobs, WORKERS, on_done=T.report_line)
 
 
@@ -626,7 +665,7 @@ def main(argv=None):
     ap.add_argument("--tier", choices=["quick", "thorough"], default="quick")
     ap.add_argument("--seed", type=int, default=1)
     ap.add_argument("--out", default=None)
-    ap.add_argument("--only", default=None, help="run only scenarios whose name contains this substring")
+    ap.add_argument("--only", default=None, help="run only scenarios whose name contains this substring (alternatives separated by '|')")
     ap.add_argument("--workers", type=int, default=8)
     ap.add_argument("--deadline", type=float, default=T.DEFAULT_DEADLINE, help="per-wait deadline in seconds")
     ap.add_argument("--no-build", action="store_true", help="skip the cargo build (binaries must exist)")
